@@ -1,12 +1,13 @@
 use std::{
-    io::{BufRead, ErrorKind, Result as IoResult},
+    io::{BufRead, Chain, Cursor, ErrorKind, Read, Result as IoResult},
     slice,
 };
 
 use super::encoding::Encoding;
 
 pub struct Decoder<R> {
-    inner: R,
+    // Starts with the bytes that were read while looking for the BOM
+    inner: Chain<Cursor<Vec<u8>>, R>,
     read_buf: Vec<u8>,
     // Only used for UTF-16/invalid UTF-8 encoded data
     decode_buf: String,
@@ -15,35 +16,41 @@ pub struct Decoder<R> {
 
 impl<R: BufRead> Decoder<R> {
     pub fn new(mut inner: R) -> IoResult<Self> {
+        let (encoding, head) = Self::read_bom(&mut inner)?;
+
         Ok(Self {
-            encoding: Self::read_bom(&mut inner)?,
+            encoding,
             read_buf: Vec::new(),
             decode_buf: String::new(),
-            inner,
+            inner: Cursor::new(head).chain(inner),
         })
     }
 
-    fn read_bom(reader: &mut R) -> IoResult<Encoding> {
-        let buf = loop {
+    /// Reads up to three bytes to find the BOM. Returns the encoding and the
+    /// bytes that were read but are not part of the BOM.
+    fn read_bom(reader: &mut R) -> IoResult<(Encoding, Vec<u8>)> {
+        let mut head = Vec::with_capacity(3);
+
+        while head.len() < 3 {
             let available = match reader.fill_buf() {
-                Ok(n) => n,
+                Ok(buf) => buf,
                 Err(ref err) if err.kind() == ErrorKind::Interrupted => continue,
                 Err(err) => return Err(err),
             };
 
-            let len = available.len();
-
-            if len >= 3 || len == 0 {
-                break available;
+            if available.is_empty() {
+                break;
             }
 
+            let len = available.len().min(3 - head.len());
+            head.extend_from_slice(&available[..len]);
             reader.consume(len);
-        };
+        }
 
-        let (encoding, consumed) = Encoding::from_bom(buf);
-        reader.consume(consumed);
+        let (encoding, consumed) = Encoding::from_bom(&head);
+        head.drain(..consumed);
 
-        Ok(encoding)
+        Ok((encoding, head))
     }
 
     pub fn read_line(&mut self) -> IoResult<Option<&str>> {
